@@ -6,7 +6,7 @@
    REAL reduce_classes output and per document of every generated sample set. *)
 From Coq Require Import NArith List Bool.
 From XV Require Import Base.Str Model.Sample Model.SampleCorr Model.ConvFactory
-  Proofs.SampleBuild Proofs.SampleFit Proofs.SampleTypes Proofs.SampleAccept Proofs.SampleGuarded.
+  Proofs.SampleBuild Proofs.SampleFit Proofs.SampleTypes Proofs.SampleAccept Proofs.SampleGuarded Proofs.SampleJson.
 Import ListNotations.
 
 (* 1. samples_fit + attrs_fit: for EVERY set of sample trees and EVERY behaviour of the converter tests, every
@@ -18,6 +18,15 @@ Import ListNotations.
 Theorem C13_samples_fit : forall cv (S : list tree), forallb (tree_fits (classes_of_xml cv S)) S = true.
 Proof. exact samples_fit. Qed.
 Print Assumptions C13_samples_fit.
+
+(* 1b. the JSON analogue (DictMapper): every key of every sample object has a slot in the merged class of the
+       object's name — a list slot for an array value, an optional one for null — and keys an object lacks are
+       optional.  Hypothesis: the samples are what json.load returns (distinct keys per object, top level an
+       object or an array of objects). *)
+Theorem C13_json_samples_fit : forall cv name (S : list json),
+  forallb json_top_wf S = true -> forallb (json_fits (classes_of_json cv name S) name) S = true.
+Proof. exact json_samples_fit. Qed.
+Print Assumptions C13_json_samples_fit.
 
 (* 2. the type inferred for every attribute value, leaf text, text content and complex child of every sample
       node is among the types of the merged attr — unless it is xs:anySimpleType (empty value) / xs:anyType /
@@ -95,6 +104,10 @@ Theorem C13_values_exact_refuted :
   exists tbl vt S, forallb (g_values_exact vt (classes_of_xml (sconv_of_table tbl) S)) S = false.
 Proof. exact values_exact_refuted. Qed.
 Print Assumptions C13_values_exact_refuted.
+
+Theorem C13_json_strings_refuted : exists tbl S, forallb (g_json_strings (sconv_of_table tbl)) S = false.
+Proof. exact json_strings_refuted. Qed.
+Print Assumptions C13_json_strings_refuted.
 
 Example C13_regular_nonvacuous :
   let cs := classes_of_xml no_tests w_regular in
